@@ -124,10 +124,11 @@ void TcpServer::stop()
     if (d_->state != State::kRunning)
         return;
 
+    //! stop() may be called from a callback of one of these connections: delete them later
     d_->conns.foreach(
-        [](TcpConnection *conn) {
+        [this](TcpConnection *conn) {
             conn->disconnect();
-            delete conn;
+            d_->wp_loop->runNext([conn] { delete conn; }, "TcpServer::stop, delete conn");
         }
     );
     d_->conns.clear();
